@@ -39,7 +39,7 @@ def acq_fcn_lcb(xi, func_count: int, gp: gpr.GP, sqrt_beta=None):
         )
     elif callable(sqrt_beta):
         sqrt_beta = sqrt_beta(t, n_vars)
-    elif ~np.isfinite(sqrt_beta) or sqrt_beta.size > 1:
+    elif np.size(sqrt_beta) > 1 or not np.all(np.isfinite(sqrt_beta)):
         raise ValueError(
             "acq_lcb: The SQRTBETAT parameter of the acquisition \
             function needs to be a scalar or a function handle/name to an annealing schedule."
